@@ -68,10 +68,30 @@ func (e *Engine) backgroundAxioms(ts []*Term, mode Mode) []*Term {
 		// A-addr: allocations live below 2^62 and do not wrap
 		out = append(out, BVCmp("bvult", a, Const(BV(64), bigPow2(62))))
 	}
+	for _, a := range seenApp["addrI"] {
+		if !ground(a) || dedup[a.Key()] {
+			continue
+		}
+		dedup[a.Key()] = true
+		out = append(out, And(IntCmp("<=", ConstI(IntSort, 0), a), IntCmp("<", a, Const(IntSort, bigPow2(62)))))
+	}
 	if len(seenApp["elemref"]) > 0 {
 		r, i := Var("r!er", I), Var("i!er", I)
 		app := App("elemref", I, r, i)
 		out = append(out, Forall([]*Term{r, i}, And(Eq(App("elemref_reg", I, app), r), Eq(App("elemref_idx", I, app), i)), app))
+	}
+	// sub-object references are injective
+	var subNames []string
+	for n := range seenApp {
+		if strings.HasPrefix(n, "sub_") {
+			subNames = append(subNames, n)
+		}
+	}
+	sort.Strings(subNames)
+	for _, n := range subNames {
+		r := Var("r!sub", I)
+		app := App(n, I, r)
+		out = append(out, Forall([]*Term{r}, Eq(App(n+"_inv", I, app), r), app))
 	}
 	for _, nm := range []string{"urem", "udiv"} {
 		for _, a := range seenApp[nm] {
@@ -221,8 +241,12 @@ func (e *Engine) solveAll(dir string, timeout time.Duration, workers int) {
 	wg.Wait()
 }
 
+var buildTime time.Duration
+
 func (e *Engine) solveOne(ob *Obligation, dir string, timeout time.Duration) {
+	tb := time.Now()
 	smt := e.buildSMT(ob)
+	buildTime += time.Since(tb)
 	if err := os.WriteFile(ob.SMT, []byte(smt), 0o644); err != nil {
 		ob.Status, ob.Output = "error", err.Error()
 		return
@@ -234,42 +258,66 @@ func (e *Engine) solveOne(ob *Obligation, dir string, timeout time.Duration) {
 		ob.Status, ob.Output, ob.Time, ob.Solver = st, out, d, solvers[0].name
 		return
 	}
-	st, out, d := runSolver(ctx, solvers[0], ob.SMT, timeout)
-	ob.Status, ob.Output, ob.Time, ob.Solver = st, out, d, solvers[0].name
-	if st == "unsat" {
-		return
-	}
-	if st == "sat" {
-		// ask for the model
-		ob.Model = e.getModel(ob, timeout)
-		// a second opinion is only sought when quantifiers are involved
-		if !strings.Contains(smt, "(forall") && !strings.Contains(smt, "(exists") {
-			return
-		}
-	}
+	// portfolio: z3-new starts alone; if it has not answered after a grace period the other
+	// two join. The first `unsat` discharges the obligation; `sat` from a solver is final
+	// for quantifier-free queries.
 	type res struct {
 		st, out, name string
 		d             float64
 	}
-	rc := make(chan res, 2)
+	quant := strings.Contains(smt, "(forall") || strings.Contains(smt, "(exists")
+	rc := make(chan res, len(solvers))
 	cctx, cancel := context.WithCancel(ctx)
 	defer cancel()
-	for _, s := range solvers[1:] {
-		go func(s solverCfg) {
+	launch := func(s solverCfg) {
+		go func() {
 			st, out, d := runSolver(cctx, s, ob.SMT, timeout)
 			rc <- res{st, out, s.name, d}
-		}(s)
+		}()
 	}
-	for i := 0; i < len(solvers)-1; i++ {
-		r := <-rc
-		ob.Time += r.d
-		if r.st == "unsat" {
-			ob.Status, ob.Output, ob.Solver = "unsat", r.out, r.name
-			return
+	launch(solvers[0])
+	pending := 1
+	launched := 1
+	grace := time.After(1500 * time.Millisecond)
+	best := res{st: "unknown"}
+	for pending > 0 {
+		select {
+		case <-grace:
+			for launched < len(solvers) {
+				launch(solvers[launched])
+				launched++
+				pending++
+			}
+		case r := <-rc:
+			pending--
+			ob.Time += r.d
+			if r.st == "unsat" {
+				ob.Status, ob.Output, ob.Solver = "unsat", r.out, r.name
+				return
+			}
+			if r.st == "sat" && !quant {
+				ob.Status, ob.Output, ob.Solver = "sat", r.out, r.name
+				cancel()
+				ob.Model = e.getModel(ob, timeout)
+				return
+			}
+			if r.st == "sat" || best.st == "unknown" || best.st == "error" {
+				if best.st != "sat" {
+					best = r
+				}
+			}
+			if pending == 0 && launched < len(solvers) {
+				for launched < len(solvers) {
+					launch(solvers[launched])
+					launched++
+					pending++
+				}
+			}
 		}
-		if r.st == "sat" && ob.Status != "sat" {
-			ob.Status, ob.Output, ob.Solver = "sat", r.out, r.name
-		}
+	}
+	ob.Status, ob.Output, ob.Solver = best.st, best.out, best.name
+	if ob.Status == "sat" {
+		ob.Model = e.getModel(ob, timeout)
 	}
 }
 
@@ -299,12 +347,18 @@ func (e *Engine) getModel(ob *Obligation, timeout time.Duration) string {
 // relevant keeps the assumptions connected to the goal through shared symbols (cone of
 // influence). Dropping assumptions can only make a query harder to refute, never easier,
 // so the filter is sound. Hub symbols (allocation maps, region sizes) do not propagate.
+var symCache = map[*Term]map[string]bool{}
+
 func relevant(asserts []*Term, goal *Term) []*Term {
 	isHub := func(n string) bool {
 		return strings.HasPrefix(n, "Alloc!") || n == "rsize" || n == "addr" || n == "elemref" || strings.HasPrefix(n, "sub_")
 	}
 	symsOf := func(t *Term) map[string]bool {
+		if m, ok := symCache[t]; ok {
+			return m
+		}
 		m := map[string]bool{}
+		defer func() { symCache[t] = m }()
 		var rec func(t *Term, bound map[string]bool)
 		seen := map[*Term]bool{}
 		rec = func(t *Term, bound map[string]bool) {
